@@ -1,5 +1,5 @@
 (* C06 — Compare is the documented total order on token streams. *)
-From SbModel Require Import Model.Compare Spec.LexOrder Proofs.CompareP.
+From SbModel Require Import Model.Compare Spec.LexOrder Proofs.CompareP Proofs.LexFirstDiffP.
 Local Open Scope N_scope.
 
 Notation wfs := (Forall (fun t => wf_cmp t = true)).
@@ -30,6 +30,23 @@ Proof. exact (tok_same_wf s t). Qed.
 Theorem c06_prefix_first a b : b <> [] -> lex a (a ++ b) = Lt.
 Proof. exact (lex_prefix a b). Qed.
 
+(* "lexicographically, token by token": every pair of streams splits into a pairwise-same
+   prefix and two rests; both rests empty: Eq; one empty: the shorter stream first; otherwise
+   the heads of the rests differ and their order is the answer, WHATEVER follows them *)
+Theorem c06_decomposition a b : lex_split a b (lex a b).
+Proof. exact (lex_decomposition a b). Qed.
+Theorem c06_split_decides a b c : lex_split a b c -> lex a b = c.
+Proof. exact (lex_split_sound a b c). Qed.
+Theorem c06_first_difference p q x y a b :
+  Forall2 tok_same p q -> tok_ord x y <> Eq -> lex (p ++ x :: a) (q ++ y :: b) = tok_ord x y.
+Proof. exact (lex_first_difference p q x y a b). Qed.
+Theorem c06_tails_irrelevant p q x y a b a2 b2 :
+  wfs (p ++ x :: a) -> wfs (q ++ y :: b) -> wfs (p ++ x :: a2) -> wfs (q ++ y :: b2) ->
+  Forall2 tok_same p q -> tok_ord x y <> Eq ->
+  cmp_tokens (p ++ x :: a) (q ++ y :: b) = Some (tok_ord x y) /\
+  cmp_tokens (p ++ x :: a2) (q ++ y :: b2) = cmp_tokens (p ++ x :: a) (q ++ y :: b).
+Proof. exact (cmp_tokens_first_difference p q x y a b a2 b2). Qed.
+
 (* Min and Max sort strictly below and above every other value *)
 Theorem c06_min_max t : wf_cmp t = true -> kind t <> KMin -> kind t <> KMax ->
   lex [T KMin VNone] [t] = Lt /\ lex [t] [T KMax VNone] = Lt.
@@ -48,5 +65,9 @@ Print Assumptions c06_trans_lt.
 Print Assumptions c06_eq_iff.
 Print Assumptions c06_same_is_identical.
 Print Assumptions c06_prefix_first.
+Print Assumptions c06_decomposition.
+Print Assumptions c06_split_decides.
+Print Assumptions c06_first_difference.
+Print Assumptions c06_tails_irrelevant.
 Print Assumptions c06_min_max.
 Print Assumptions c06_nan_payload_irreflexive.
